@@ -24,6 +24,20 @@ pub fn check_bytes(b: &[u8], st: &mut Stats, mode: Count) {
             return;
         }
     };
+    // the FromStr routes of both types must agree with from_bytes on every input
+    if let Ok(text) = std::str::from_utf8(b) {
+        match guard(|| (text.parse::<LanguageIdentifier>(), text.parse::<Locale>())) {
+            Err(p) => st.fail(format!("from_str:{}", panic_sig(&p)), case(), b.len(), format!("FromStr panicked: {p:?}")),
+            Ok((a, c)) => {
+                if a.as_ref().ok() != li.as_ref().ok() || a.is_ok() != li.is_ok() {
+                    st.fail("langid-from_str-differs-from-from_bytes", case(), b.len(), format!("FromStr {:?} vs from_bytes {:?}", a.as_ref().map(|v| v.to_string()), li.as_ref().map(|v| v.to_string())));
+                }
+                if c.as_ref().ok() != lo.as_ref().ok() || c.is_ok() != lo.is_ok() {
+                    st.fail("locale-from_str-differs-from-from_bytes", case(), b.len(), format!("FromStr {:?} vs from_bytes {:?}", c.as_ref().map(|v| v.to_string()), lo.as_ref().map(|v| v.to_string())));
+                }
+            }
+        }
+    }
     let toks = model::split(b);
     let mut nontrivial = false;
     if let Ok(li) = &li {
